@@ -614,6 +614,7 @@ class CircuitGraph(object):
 
         path = Path()
         path.append(edge)
+        visited = set((edge.from_node, ))
 
         while True:
             if self.debug:
@@ -628,6 +629,13 @@ class CircuitGraph(object):
             if node == dest_node:
                 return path
 
+            if node in visited:
+                # Closed loop that does not lead anywhere.
+                if dest_node is None:
+                    return path
+                return Path()
+            visited.add(node)
+
             next_edges = self.node_edges(node)
             if self.debug:
                 print('next: ' + ', '.join([str(e) for e in next_edges]))
@@ -635,8 +643,10 @@ class CircuitGraph(object):
                 if dest_node is None:
                     return path
                 return Path()
+            # Continue with the edge that does not lead back.
+            previous_node = edge.from_node
             edge = next_edges[0]
-            if edge.from_node == node:
+            if edge.to_node == previous_node:
                 edge = next_edges[1]
             path.append(edge)
 
